@@ -77,6 +77,15 @@ Sub(d) ==
     /\ act' = [op |-> "Sub", d |-> d]
     /\ UNCHANGED <<ws, warm>>
 
+\* tree.update_meta(ours, theirs): the metadata a LATER build recorded (theirs: the directory as it is now) is carried
+\* onto the tree built last (ours) wherever both list the same file with the same digest.  Entries and identifier of ours
+\* are untouched - whatever was edited, added or removed since.
+UpdateMeta ==
+    /\ Tick /\ last.op \in {"Build", "UpdateMeta"} /\ Files(ws) # {}
+    /\ last' = [op |-> "UpdateMeta", listing |-> last.listing, oid |-> last.oid]
+    /\ act' = [op |-> "UpdateMeta"]
+    /\ UNCHANGED <<ws, warm>>
+
 \* the same step with some order (used when the orders were not logged: the result does not depend on them)
 BuildAny(cfg) ==
     LET c == IF cfg.state = "real" THEN warm ELSE [p \in Paths |-> Absent]
@@ -89,14 +98,14 @@ Next ==
           \E fresh \in Perms(Files(ws) \ Hits(ws, IF st = "real" THEN warm ELSE [p \in Paths |-> Absent])) :
               \E sp \in {"plain", "slash", "dslash"} : Build([state |-> st, sp |-> sp], walk, fresh)
     \/ \E d \in SubDirs : Sub(d)
-    \/ BuildOther
+    \/ BuildOther \/ UpdateMeta
 
 \* behaviour generation: orders are not part of the operation-level behaviour
 NextAny ==
     \/ \E p \in Paths, c \in Contents \cup {Absent} : Edit(p, c)
     \/ \E st \in {"noop", "real"}, sp \in {"plain", "slash", "dslash"} : BuildAny([state |-> st, sp |-> sp])
     \/ \E d \in SubDirs : Sub(d)
-    \/ BuildOther
+    \/ BuildOther \/ UpdateMeta
 
 Init == /\ ws \in [Paths -> Contents \cup {Absent}] /\ warm = [p \in Paths |-> Absent]
         /\ last = [op |-> "none"] /\ act = [op |-> "Init"] /\ steps = 0
@@ -108,4 +117,6 @@ C03_Function(w, L) == L.listing = Truth(w) /\ L.oid = Truth(w)
 C03_Sub(w, d, L) == L.listing = TruthUnder(w, d) /\ L.oid = TruthUnder(w, d) /\ L.direct = L.oid
 Inv_Build == act.op = "Build" => C03_Function(ws, last)
 Inv_Sub == act.op = "Sub" => C03_Sub(ws, act.d, last)
+\* (the identifier stays the canonical one of the entries the object holds)
+Inv_Update == act.op = "UpdateMeta" => last.oid = last.listing
 =============================================================================
